@@ -50,6 +50,8 @@ func rulesC10(c *Ctx) {
 	ruleStringBounds(c, "C10.STRBOUNDS", "ast", "zitiql")
 	ruleTypedNil(c, "C10.TYPEDNIL", "ast", "objectz", "zitiql")
 	ruleSymbolSameName(c, "C10.SYMSAME")
+	ruleFoundLookedAt(c, "C10.FOUNDUSED")
+	ruleStaleElementPointer(c, "C10.STALEELEM", "zitiql", "ast", "boltz", "objectz")
 	ruleC10LexErr(c)
 	ruleC10Panic(c)
 	ruleC10NilRecv(c)
